@@ -135,6 +135,9 @@ fn apply_real(root: &Path, op: &Op, style: SaveStyle) {
                 let _ = fs::write(&p, bytes);
             }
         }
+        Op::ForeignDir { path } => {
+            let _ = fs::create_dir_all(root.join(path));
+        }
         Op::RemoveFile { path } => {
             let _ = fs::remove_file(root.join(path));
         }
